@@ -169,6 +169,7 @@ class C12(Check):
         ml = MainLoop(Rp, c, K, n, modes={'initial': 'summary', 'statistics': 'real', 'optimise': 'real'},
                       label_hook=lambda r, T: list(pats[(r + 1) % 3]))
         ml.s_initial = lambda k, d: list(pats[0])
+        c.notes.update({'kind': 'round_flow', 'K': K, 'P': P, 'limit': lim, 'biased': bool(biased)})
         with ml:
             ok, res = guarded(c, 'every_round_fits_current_labels', Rp.front_end.ticc_labels, data, window_size=1,
                               num_clusters=K, iteration_limit=lim, min_cluster_size=1, sparsity_weight=0.1,
@@ -207,6 +208,7 @@ class C12(Check):
                                           'repopulate': 'real'},
                       label_hook=lambda r, T: [0] * T if r % 2 == 0 else [(i + r) % K for i in range(T)])
         ml.s_initial = lambda k, d: [i % K for i in range(len(d))]
+        c.notes.update({'kind': 'round_flow_repop', 'K': K, 'P': P, 'limit': lim, 'biased': bool(biased), 'm': m})
         old_random = Rp.cm.random
         Rp.cm.random = stubs.StubRandom()
         try:
